@@ -124,6 +124,13 @@ class Script(Session):
         self.results.append(res)
         return res
 
+    def undecided(self, name, detail="a prerequisite lemma was not discharged"):
+        """a clause that cannot be decided because something it depends on is undecided (never a violation)"""
+        full = f"{self.label}/{name}/path{self.paths}"
+        res = Result(full, "unknown", "-", 0.0, detail=detail)
+        self.results.append(res)
+        return res
+
     def holds(self, name, goal, extra=()):
         if goal is False and self.mode != "replay" and not extra:
             return self.structural_failure(name)
@@ -159,17 +166,18 @@ class Script(Session):
         self.replay_verdicts.append((name, v))
         return v
 
-    def expected_fail(self, kid, name):
+    def expected_fail(self, kid, name, props=None):
         """clause inside a recorded known finding with no claim outside it in this script variant: no proof is attempted;
         the check driver replays the recorded witness on the real code and reports KNOWN-FINDING (or a VIOLATION if the
         finding is not on file)"""
         full = f"{self.label}/{name}/path{self.paths}"
         res = Result(full, "failed", "known-finding(no proof attempted)", 0.0, detail="expected to fail: " + kid)
         res.known_id = kid
+        res.props = props
         self.results.append(res)
         return res
 
-    def known(self, kid, name, goal, carve=None):
+    def known(self, kid, name, goal, carve=None, props=None):
         """clause covered by a recorded known finding `kid`: the clause must hold OUTSIDE the carve-out (proved here,
         unless the carve-out is the whole regime of this script variant: carve=None);
         inside it the recorded witness is replayed natively by the check driver."""
@@ -179,6 +187,9 @@ class Script(Session):
         full = self.holds(name, goal)
         if full is not None and hasattr(full, "status"):
             full.known_id = kid
+            full.props = props
+        if r is not None and hasattr(r, "status"):
+            r.props = props
         return r
 
     # -- model -> concrete input ----------------------------------------------
